@@ -28,7 +28,7 @@ CHANNELS = 3
 
 BOUNDS = {
     'quick': 'INDEX: every nested array R x C with R,C <= 4 (numeric and text, position-coded elements) as '
-             'variable, range and (R=2) literal, every flat list of length <= 4 as variable and as ,/; '
+             'variable, range and (R >= 2, C >= 2) literal, every flat list of length <= 4 as variable and as ,/; '
              'literal; every (row, col) with each index in -10..size+10 or omitted/blank/absent; indices '
              'as literals and as variables.  CHOOSE: n <= 6, i in -10..n+10 and {254,255,256}.  MATCH type 0: '
              'every array of length <= 4 over {1,2,3}, over {"a","ab","B","a?"} and (length <= 3) over '
@@ -289,7 +289,7 @@ class IndexBase(Sub):
 class IndexGrid(IndexBase):
     name = 'c18.index_grid'
     rule = ('every nested R x C array (numeric / text, elements 100*row+col) x delivery (variable, range, '
-            'literal when R=2) x index delivery (literal, variable) x every (row, col) pair of the bound; '
+            'literal when R >= 2 and C >= 2) x index delivery (literal, variable) x every (row, col) pair of the bound; '
             'non-trivial = an index is outside 1..size, whole (0/omitted/blank) or the array is a vector '
             'with two admissible axes')
     min_cases = 200
@@ -303,7 +303,7 @@ class IndexGrid(IndexBase):
     def cases(self, tier, unit):
         for R, C in self.shapes(tier):
             for et in ('n', 't'):
-                dls = ['var', 'rng'] + (['lit'] if (R == 2 and C >= 2) else [])
+                dls = ['var', 'rng'] + (['lit'] if (R >= 2 and C >= 2) else [])
                 for dl in dls:
                     for idl in ('lit', 'var'):
                         for rs in specs(R, ('omit', 'blank')):
